@@ -389,9 +389,20 @@ def cow_check(prop, tier, seed, wd):
             p.append(parent[s])
             s = edges[parent[s]][0]
         return p[::-1]
+    # contents of every handle in every state (from the observations on incoming edges)
+    state_obs = {}
+    for e in edges:
+        state_obs[e[2]] = e[3]
     def fmt(e):
         _f, op, _t, obs = e
         d = op["d"]
+        if op["op"] == "consume_rust":
+            pre = state_obs.get(e[0])
+            data = pre[op["x"] - 1]["data"] if pre else []
+            digest = 0
+            for i in range(op["y"]):
+                digest = digest * 10 + (data[i] if i < len(data) else 9)
+            d = [digest]
         lines = [f"O {op['op']} {op['x']} {op['y']} {len(d)} " + " ".join(str(x) for x in d)]
         parts = []
         for h in obs:
